@@ -66,6 +66,9 @@ def configs(tier):
         for bdim in (0, 1):
             out.append(dict(part="term", term="dirichlet", statio=statio, dsp=2, B=2, r=1, m=2, bdim=bdim))
             out.append(dict(part="term", term="neumann", statio=statio, dsp=2, B=2, r=1, m=2, bdim=bdim))
+    for statio in (True, False):          # the dynamic TERM of the loss (batch-mean weighted squared residual), 2 residual components
+        for w in ("scalar", "vector"):
+            out.append(dict(part="term", term="dyn", statio=statio, dsp=(2 if statio else 1), B=2, r=1, w=w))
     for dsp in (1, 2):
         out.append(dict(part="term", term="ic", statio=False, dsp=dsp, B=2, r=1))
         out.append(dict(part="term", term="norm", statio=True, dsp=dsp, B=2, r=1))
@@ -209,9 +212,9 @@ def run(cfg, R):
         t_, dx = a; return 2.0 * t_[..., 0] + 0.5 * dx[..., 0] + 0.25 * dx[..., -1] * (dsp - 1) + 0.125
     fb = lambda *a: psi(4)(flin(*a))[..., None]
     kw_s = dict(dynamic_loss=None, params=params)
-    tname = {"dirichlet": "boundary_loss", "neumann": "boundary_loss", "ic": "initial_condition", "norm": "norm_loss"}[term]
+    tname = {"dirichlet": "boundary_loss", "neumann": "boundary_loss", "ic": "initial_condition", "norm": "norm_loss", "dyn": "dyn_loss"}[term]
     R.note(functions=[{"dirichlet": "boundary_dirichlet_*[SPINN] vs [PINN]", "neumann": "boundary_neumann_*[SPINN] vs [PINN]", "ic": "initial_condition_apply[SPINN] vs [PINN]",
-                       "norm": "normalization_loss_apply[SPINN] vs [PINN]"}[term], "jinns.utils._utils._get_grid"])
+                       "norm": "normalization_loss_apply[SPINN] vs [PINN]", "dyn": "dynamic_loss_apply[SPINN] vs [PINN]"}[term], "jinns.utils._utils._get_grid"])
 
     def mk_losses(extra):
         if statio:
@@ -258,6 +261,39 @@ def run(cfg, R):
                 bp = PDENonStatioBatch(times_x_inside_batch=jnp.concatenate([t, x], axis=1), times_x_border_batch=jnp.stack(fac, axis=-1))
             return ls.evaluate(params, bs)[1][tname], lp.evaluate(params, bp)[1][tname]
         args = (ls, lp, params, t, pins, free)
+    elif term == "dyn":
+        from jinns.loss import PDEStatio, PDENonStatio
+        wk = cfg["w"]
+        wd = jnp.array(0.75) if wk == "scalar" else jnp.array([0.5, 1.25])
+        # a user equation with two residual components, written for both network kinds: it only uses u's value, so the separable
+        # (grid) and the pointwise evaluation agree element by element
+        if statio:
+            class Eq(PDEStatio):
+                def equation(self, xx, u, p):
+                    v = u(xx, p)
+                    return jnp.concatenate([psi(0)(v[..., 0:1]), psi(1)(2.0 * v[..., 0:1])], axis=-1)
+        else:
+            class Eq(PDENonStatio):
+                def equation(self, tt, xx, u, p):
+                    v = u(tt, xx, p)
+                    return jnp.concatenate([psi(0)(v[..., 0:1]), psi(1)(2.0 * v[..., 0:1])], axis=-1)
+        kw_d = dict(dynamic_loss=Eq(Tmax=1), params=params)
+        if statio:
+            ls = LossPDEStatio(u=sp, loss_weights=LossWeightsPDEStatio(dyn_loss=wd), **kw_d); lp = LossPDEStatio(u=pn, loss_weights=LossWeightsPDEStatio(dyn_loss=wd), **kw_d)
+        else:
+            ls = LossPDENonStatio(u=sp, loss_weights=LossWeightsPDENonStatio(dyn_loss=wd), **kw_d); lp = LossPDENonStatio(u=pn, loss_weights=LossWeightsPDENonStatio(dyn_loss=wd), **kw_d)
+        def f(ls, lp, params, t, x):
+            lp = eqx.tree_at(lambda l: l.loss_weights, lp, ls.loss_weights)
+            if statio:
+                bs = PDEStatioBatch(inside_batch=x, border_batch=None)
+                gx = jnp.stack(jnp.meshgrid(*[x[:, j] for j in range(dsp)], indexing="ij"), axis=-1).reshape(-1, dsp)
+                bp = PDEStatioBatch(inside_batch=gx, border_batch=None)
+            else:
+                bs = PDENonStatioBatch(times_x_inside_batch=jnp.concatenate([t, x], axis=1), times_x_border_batch=None)
+                g_ = jnp.stack(jnp.meshgrid(t[:, 0], *[x[:, j] for j in range(dsp)], indexing="ij"), axis=-1).reshape(-1, 1 + dsp)
+                bp = PDENonStatioBatch(times_x_inside_batch=g_, times_x_border_batch=None)
+            return ls.evaluate(params, bs)[1][tname], lp.evaluate(params, bp)[1][tname]
+        args = (ls, lp, params, t, x)
     elif term == "ic":
         u0 = lambda xx: psi(4)(0.5 * xx[..., 0] + 0.25 * xx[..., -1] * (dsp - 1) + 0.125)[..., None]
         ls, lp = mk_losses(dict(initial_condition_fun=u0))
@@ -284,7 +320,7 @@ def run(cfg, R):
                 bs = PDENonStatioBatch(times_x_inside_batch=jnp.concatenate([t, x], axis=1), times_x_border_batch=None); bp = bs
             return ls.evaluate(params, bs)[1][tname], lp2.evaluate(params, bp)[1][tname]
         args = (ls, lp, params, t, x)
-    name = f"term/{term}/{'statio' if statio else 'nonstatio'}/d{dsp}/B{B}" + (f"/m{mt}dim{bdim}" if bdim is not None else "")
+    name = f"term/{term}/{'statio' if statio else 'nonstatio'}/d{dsp}/B{B}" + (f"/m{mt}dim{bdim}" if bdim is not None else "") + (f"/{cfg['w']}" if term == "dyn" else "")
     tr = R.trace(name, f, args, key=f"term:{term}:raises")
     if tr is None: return
 
